@@ -5,7 +5,7 @@ use crate::dpll::Policy;
 use crate::framework::{Property, RunResult, Tier, Violation};
 use crate::prng::{Digest, Rng};
 use crate::props::statq::{normalise, tame_encoder};
-use crate::refsem::{Sem, ALL_SEMS};
+use crate::refsem::ALL_SEMS;
 use crate::refstore::{RefStore, L};
 use crate::simchild::ReplyPlan;
 use crate::simsat::OracleCfg;
